@@ -424,11 +424,14 @@ def bpe_train(char_list, vocab_size=10000, min_count=1, max_char_code=0):
     code_list = [pair_to_replace]
     code_lengths[new_code] = pair_length(pair_to_replace, code_lengths, max_char_code)
 
-    while len(tokens) < vocab_size:
+    while True:
         for i, char_array in enumerate(compressed_chars):
             compressed_chars[i], pair_counts = contract_and_count_pairs(
                 char_array, pair_to_replace, pair_counts, new_code
             )
+
+        if len(tokens) >= vocab_size:
+            break
 
         pair_counts.pop(pair_to_replace)
         new_code += 1
